@@ -5,6 +5,7 @@
   this is enough, because a descriptor cannot be reused while one of its tokens is outstanding.
 -/
 import MicroHttp.ServerSpec
+import MicroHttp.Proofs.SrvRoute
 namespace MicroHttp.C07
 open MicroHttp
 
@@ -15,14 +16,17 @@ theorem yielded_tokens (s : Srv) (h : SrvInv s) (ev : Ev) (hev : EvOK s ev)
     (tok : Token) (r : Request) (hy : (tok, r) ∈ (handleEv s ev).2.1) :
     (∃ c ∈ s.conns, c.fd = tok.fd ∧ c.inst = tok.inst ∧ ∃ fl rd t w, ev = .client c.fd fl rd t w) ∧
     tok ∈ (handleEv s ev).1.outstanding := by
-  sorry
+  have _ := h
+  have _ := hev
+  exact yielded_tokens' s ev tok r hy
 
 /-- While a token is outstanding its connection instance stays in the table (it cannot be reaped,
     so its descriptor number cannot be handed out again by `accept` — E1): the descriptor in the
     token identifies the instance. -/
 theorem outstanding_token_identifies (s : Srv) (h : SrvInv s) (tok : Token) (ht : tok ∈ s.outstanding) :
     ∃ c, findClient s.conns tok.fd = some c ∧ c.inst = tok.inst := by
-  sorry
+  obtain ⟨c, _, hf, _, e2, _⟩ := h.token_client ht
+  exact ⟨c, hf, e2⟩
 
 /-- Routing: responding to an outstanding token enqueues the response into the connection
     instance that yielded it — at the END of that connection's queue (so responses leave in the
@@ -36,26 +40,32 @@ theorem respond_routes (s : Srv) (h : SrvInv s) (tok : Token) (ht : tok ∈ s.ou
         c'.conn.respQ = (if c.state = .closed then c.conn.respQ else c.conn.respQ ++ [r]) ∧
         c'.conn.respBuf = c.conn.respBuf ∧ c'.inflight + 1 = c.inflight) ∧
       (respond s tok r).2.1 = .ok := by
-  sorry
+  exact respond_routes' s h tok ht r
 
 /-- A response for a request whose connection has gone (an id the table no longer holds — only
     possible for a token that is NOT outstanding, e.g. answered twice) is dropped: nothing changes. -/
 theorem respond_unknown_dropped (s : Srv) (tok : Token) (r : Response) (hno : findClient s.conns tok.fd = none) :
     (respond s tok r).1.conns = s.conns ∧ (respond s tok r).2.2 = [] := by
-  sorry
+  unfold respond
+  simp only [hno, and_self]
 
 /-- A response to a closed connection is dropped: nothing is enqueued anywhere. -/
 theorem respond_closed_dropped (s : Srv) (h : SrvInv s) (tok : Token) (ht : tok ∈ s.outstanding) (r : Response)
     (c : Client) (hc : findClient s.conns tok.fd = some c) (hcl : c.state = .closed) :
     ∀ c' ∈ (respond s tok r).1.conns, ∃ c0 ∈ s.conns, c0.fd = c'.fd ∧ c'.conn = c0.conn := by
-  sorry
+  exact respond_closed_dropped' s h tok ht r c hc hcl
 
 /-- Frame: handling an event of one connection leaves every other connection untouched — what a
     client receives depends only on its own connection's queue. -/
 theorem event_frame (s : Srv) (fd : Nat) (fl : EvFlags) (rd : Recv) (t : List Byte) (w : SinkStep)
     (c' : Client) (hc : c' ∈ (handleEv s (.client fd fl rd t w)).1.conns) (hne : c'.fd ≠ fd) :
     c' ∈ s.conns := by
-  sorry
+  rcases handleEv_client_shape s fd fl rd t w with h | ⟨c, c'', toks, _, hfd, _, h⟩
+  · rw [h] at hc; exact hc
+  · rw [h] at hc
+    rcases mem_replaceClient hc with ⟨rfl, _⟩ | ⟨hm, _⟩
+    · exact absurd hfd hne
+    · exact hm
 
 /-- Bytes are written to a client only from its own connection's queue: a `wrote` effect of an
     event carries the descriptor and identity of the connection the event is for, and the bytes are
@@ -64,7 +74,9 @@ theorem wrote_own_bytes (s : Srv) (h : SrvInv s) (ev : Ev) (hev : EvOK s ev) (fd
     (hw : Effect.wrote fd inst bytes ∈ (handleEv s ev).2.2.1) :
     ∃ c ∈ s.conns, c.fd = fd ∧ c.inst = inst ∧
       bytes <+: ((c.conn.respBuf.getD []) ++ c.conn.respQ.flatMap Response.serialize) := by
-  sorry
+  have _ := h
+  have _ := hev
+  exact wrote_own_bytes' s ev fd inst bytes hw
 
 /-- Server-generated replies (400, 500) are enqueued into the connection whose own input caused
     them, and nowhere else. -/
@@ -77,6 +89,8 @@ theorem server_reply_to_own_input (c : Client) (rd : Recv) (t : List Byte) :
      | .streamErr _ => c'.conn.respQ = (tryRead P0 c.conn rd).1.respQ ++
                         [(Response.new .http11 .internalServerError).apply (.setBody t)]
      | _ => c'.conn.respQ = (tryRead P0 c.conn rd).1.respQ) := by
-  sorry
+  refine ⟨Client.read_fd c rd t, Client.read_inst c rd t, ?_⟩
+  rw [Client.read_eq]
+  cases (tryRead P0 c.conn rd).2 <;> simp only [] <;> (try split) <;> rfl
 
 end MicroHttp.C07
